@@ -228,6 +228,21 @@ impl<'a> Interp<'a> {
         })
     }
 
+    /// the impl of trait `t` whose implementing type is the run-time type of `v`
+    /// (implementing types are told apart by their outermost shape: at most one impl per
+    /// trait and nominal type, integer width, string, bool)
+    fn impl_for(&self, t: usize, v: &Val) -> Option<usize> {
+        self.p.impls.iter().position(|i| {
+            i.trait_ == Some(t)
+                && match (&i.for_ty, v) {
+                    (Ty::Adt(a, _), Val::Struct(b, _)) | (Ty::Adt(a, _), Val::Enum(b, _, _)) => a == b,
+                    (Ty::Int(k), Val::Int(j, _)) => k == j,
+                    (Ty::Str, Val::Str(_)) | (Ty::Bool, Val::Bool(_)) | (Ty::Unit, Val::Unit) => true,
+                    _ => false,
+                }
+        })
+    }
+
     pub fn call_fn(&mut self, f: usize, args: Vec<Val>) -> Result<Val, Stop> {
         let p = self.p;
         let def = &p.fns[f];
@@ -547,7 +562,15 @@ impl<'a> Interp<'a> {
                     vs.push(self.eval(i, env)?);
                 }
                 match c {
-                    Callee::Fn(f, _) => self.call_fn(*f, vs),
+                    Callee::Fn(f, _) | Callee::Method(f, _) => self.call_fn(*f, vs),
+                    Callee::Dispatch(t, m, _) => {
+                        // the implementation for the receiver's run-time type
+                        let f = vs.first().and_then(|r| self.impl_for(*t, r)).and_then(|i| self.p.impls[i].methods.get(*m).copied());
+                        match f {
+                            Some(f) => self.call_fn(f, vs),
+                            None => Err(Stop::Unspecified("model: no implementation for the receiver".into())),
+                        }
+                    }
                     Callee::Builtin(b) => self.builtin(*b, vs),
                     Callee::Val(_) => self.call_val(fv.unwrap(), vs),
                 }
@@ -605,6 +628,7 @@ impl<'a> Interp<'a> {
                     None => Ok(Val::Unit),
                 }
             }
+            Expr::Coerce(_, inner) => self.eval(inner, env),
             Expr::Go(c) => {
                 let f = self.eval(c, env)?;
                 match self.sched {
